@@ -20,6 +20,8 @@ CONSTANTS Keys,        \* e.g. {1,2,3}
           Cap0,        \* capacity hint
           Faults,      \* TRUE: check C18 at every callback point and explore PanicAt successors
           GetMode,     \* "get" (repaired) or "getAsCoded" (defect D1)
+          ExportMode,  \* "fixed" (skip expired entries during the traversal), "asCoded" (purge first, defect D2)
+                       \* or "asCodedLE" (the purge with <= instead of <: D2b and D2c remain)
           CapMode,     \* "fixed" (capacity = stored entries) or "asCoded" (8 << 2*black height, defect D5)
           Emit         \* TRUE: print one shortest path per distinct state (spec -> code replay)
 
@@ -106,7 +108,9 @@ ArenaBound == Len(T.nd) <= 3 * (Cardinality(Keys) + 1) + Max(Cap0, 8)
 IsEmptyOK == R!IsEmptyOK(T.root = E)
 \* C07 / C19: export from this state at every admissible time
 ExportOK == \A t \in now..MaxTime :
-   /\ Export(T, t) = R!RefExport(t)
+   /\ (CASE ExportMode = "asCoded" -> ExportAsCoded(T, t, FALSE)
+         [] ExportMode = "asCodedLE" -> ExportAsCoded(T, t, TRUE)
+         [] OTHER -> Export(T, t)) = R!RefExport(t)
    /\ (IF CapMode = "asCoded" THEN ExportCapAsCoded(T) ELSE ExportCap(T)) <= 8 * Count(T) + 64
 
 EmitCover == Emit => PrintT("COVER " \o I2S(Cap0) \o "|" \o path)
